@@ -8,6 +8,6 @@ CONSTANTS
   PLabels = {"a", "b", "c"}
   PDepth = 3
 SPECIFICATION TraceSpec
-INVARIANTS DiskIsASnapshot CrashLeavesSnapshot Converged NewestWins TypeOK OneTemp
+INVARIANTS DiskIsASnapshot ConvergedFile NewestWins SnapshotOnDisk LastPersistedExact TypeOK OneTemp
 POSTCONDITION TraceAccepted
 CHECK_DEADLOCK FALSE
